@@ -703,6 +703,8 @@ fn build_catalogue() -> Vec<Op> {
     float_b2::<mode::Zero>(&mut v);
     float_b2::<mode::HalfEven>(&mut v);
     float_b2_repr(&mut v);
+    ratio_ops(&mut v);
+    base_ops(&mut v);
     //CATALOGUE-CALLS
     // entries on Repr<B> do not depend on the rounding mode: keep the first of each
     let mut seen = std::collections::HashSet::new();
@@ -1403,6 +1405,7 @@ fn pre_ln(x: &FV, p: u64, one_plus: bool) -> Exp {
     pre_unlim1(x, p, trivial)
         .must(at_pole || below, L_LOG, "")
         .known((at_pole || below) && p != 0 && !x.extreme(), KF_LN, On::HangOrMem)
+        .known((at_pole || below) && p != 0 && !x.extreme(), KF_LN, On::Returns)
         .unspec(x.far(), L_FAR)
         .done()
 }
@@ -1424,21 +1427,24 @@ fn pre_powi(x: &FV, e: &Int, p: u64) -> Exp {
 
 fn pre_powf(x: &FV, y: &FV, p: u64) -> Exp {
     let fin = x.finite() && y.finite();
-    let y01 = fin && (y.zero || y.cmp_int(1) == Ordering::Equal);
+    let y01 = y.finite() && (y.zero || y.cmp_int(1) == Ordering::Equal);
     let neg = x.finite() && x.neg && !x.zero;
     let ybig = fin && !y.zero && y.exp as i128 + y.digits as i128 > 12;
     Pre::new()
         .unspec(any_extreme(&[x, y]), L_EXT)
         .must(any_inf(&[x, y]), L_INF, M_INF)
-        .must(fin && p == 0, L_UNLIM, M_UNLIM)
+        .must(x.finite() && p == 0, L_UNLIM, M_UNLIM)
         .unspec(fin && neg && y01, "unspecified: negative base with exponent 0 or 1")
         .unspec(fin && neg && !y01 && y.is_int(), "unspecified: negative base with an integer exponent")
-        .must(fin && neg && !y01 && !y.is_int(), L_POWNEG, M_POWNEG)
+        .must(neg && !y01 && !(y.finite() && y.is_int()), L_POWNEG, M_POWNEG)
         .must(fin && x.zero && y.neg && !y.zero, L_DIV0, "")
+        .known(fin && p != 0 && x.zero && y.neg && !y.zero, KF_POWF0, On::Returns)
         .unspec(fin && !x.zero && !y.zero && (any_far(&[x, y]) || ybig), "unspecified: power whose exponent may overflow")
         .heavy(ybig)
         .done()
 }
+
+const KF_POWF0: &str = "C16/powf-zero-base-negative-exponent";
 
 /// trunc / fract / ceil / floor / round / to_int: documented to panic on infinities
 fn pre_round(x: &FV) -> Exp {
@@ -1769,6 +1775,213 @@ fn float_b2_repr(v: &mut Vec<Op>) {
     const V: &str = "float: conversions";
     fentry!(v, V, 2, "Repr<2>::try_from(f32)", U0.n(NK::F32), |c| Repr::<2>::try_from(f32::from_bits(c.n as u32)), |_d| ret());
     fentry!(v, V, 2, "Repr<2>::try_from(f64)", U0.n(NK::F64), |c| Repr::<2>::try_from(f64::from_bits(c.n)), |_d| ret());
+}
+
+
+// ------------------------------------------------------------------------------------------------
+// dashu-ratio
+// ------------------------------------------------------------------------------------------------
+
+const Q1: Uses = U0.a(2).b(1);
+const Q2: Uses = U0.a(2).b(1).c(2).d(1);
+
+fn q2_zero(c: &Case) -> Exp {
+    Pre::new().must(c.c.is_zero(), L_DIV0, M_QDIV0).done()
+}
+
+macro_rules! q_bin {
+    ($v:ident, $fam:expr, $t:expr, $g1:ident, $g2:ident, $op:tt, $opa:tt, |$d:ident| $pre:expr) => {
+        entry!($v, "ratio", $fam, 0, format!("{} {} val.val", $t, stringify!($op)), Q2, |c| c.$g1() $op c.$g2(), |$d| $pre);
+        entry!($v, "ratio", $fam, 0, format!("{} {} val.ref", $t, stringify!($op)), Q2, |c| c.$g1() $op &c.$g2(), |$d| $pre);
+        entry!($v, "ratio", $fam, 0, format!("{} {} ref.val", $t, stringify!($op)), Q2, |c| &c.$g1() $op c.$g2(), |$d| $pre);
+        entry!($v, "ratio", $fam, 0, format!("{} {} ref.ref", $t, stringify!($op)), Q2, |c| &c.$g1() $op &c.$g2(), |$d| $pre);
+        entry!($v, "ratio", $fam, 0, format!("{} {} val", $t, stringify!($opa)), Q2, |c| { let mut x = c.$g1(); x $opa c.$g2(); x }, |$d| $pre);
+        entry!($v, "ratio", $fam, 0, format!("{} {} ref", $t, stringify!($opa)), Q2, |c| { let mut x = c.$g1(); x $opa &c.$g2(); x }, |$d| $pre);
+    };
+}
+
+macro_rules! ratio_type {
+    ($v:ident, $T:ident, $g1:ident, $g2:ident) => {{
+        let t = stringify!($T);
+        const A: &str = "ratio: arithmetic";
+        q_bin!($v, A, t, $g1, $g2, +, +=, |_d| ret());
+        q_bin!($v, A, t, $g1, $g2, -, -=, |_d| ret());
+        q_bin!($v, A, t, $g1, $g2, *, *=, |_d| ret());
+        q_bin!($v, A, t, $g1, $g2, /, /=, |d| q2_zero(d));
+        q_bin!($v, A, t, $g1, $g2, %, %=, |d| q2_zero(d));
+        entry!($v, "ratio", A, 0, format!("{t} div_euclid"), Q2, |c| c.$g1().div_euclid(c.$g2()), |d| q2_zero(d));
+        entry!($v, "ratio", A, 0, format!("{t} rem_euclid ref.ref"), Q2, |c| (&c.$g1()).rem_euclid(&c.$g2()), |d| q2_zero(d));
+        entry!($v, "ratio", A, 0, format!("{t} div_rem_euclid"), Q2, |c| c.$g1().div_rem_euclid(c.$g2()), |d| q2_zero(d));
+        entry!($v, "ratio", A, 0, format!("{t}::inv"), Q1, |c| Inverse::inv(c.$g1()), |d| Pre::new().must(d.a.is_zero(), L_DIV0, M_QDIV0).done());
+        entry!($v, "ratio", A, 0, format!("&{t}::inv"), Q1, |c| Inverse::inv(&c.$g1()), |d| Pre::new().must(d.a.is_zero(), L_DIV0, M_QDIV0).done());
+        entry!($v, "ratio", A, 0, format!("{t}::pow"), Q1.n(NK::Pow), |c| c.$g1().pow(c.nu()), |_d| ret());
+        entry!($v, "ratio", A, 0, format!("{t}::sqr/cubic"), Q1, |c| (c.$g1().sqr(), c.$g1().cubic()), |_d| ret());
+        // with integers
+        const I: &str = "ratio: arithmetic with UBig / IBig";
+        const QI: Uses = U0.a(2).b(1).c(2);
+        entry!($v, "ratio", I, 0, format!("{t} + UBig / UBig + {t}"), QI, |c| (c.$g1() + c.uc(), c.uc() + c.$g1(), &c.$g1() + &c.uc()), |_d| ret());
+        entry!($v, "ratio", I, 0, format!("{t} + IBig / IBig + {t}"), QI, |c| (c.$g1() + c.ic(), c.ic() + c.$g1()), |_d| ret());
+        entry!($v, "ratio", I, 0, format!("{t} - UBig / UBig - {t}"), QI, |c| (c.$g1() - c.uc(), c.uc() - c.$g1()), |_d| ret());
+        entry!($v, "ratio", I, 0, format!("{t} - IBig / IBig - {t}"), QI, |c| (c.$g1() - c.ic(), c.ic() - &c.$g1()), |_d| ret());
+        entry!($v, "ratio", I, 0, format!("{t} * UBig / UBig * {t}"), QI, |c| (c.$g1() * c.uc(), c.uc() * c.$g1()), |_d| ret());
+        entry!($v, "ratio", I, 0, format!("{t} * IBig / IBig * {t}"), QI, |c| (c.$g1() * c.ic(), &c.ic() * &c.$g1()), |_d| ret());
+        entry!($v, "ratio", I, 0, format!("{t} / UBig"), QI, |c| c.$g1() / c.uc(), |d| q2_zero(d));
+        entry!($v, "ratio", I, 0, format!("{t} / IBig"), QI, |c| c.$g1() / c.ic(), |d| q2_zero(d));
+        entry!($v, "ratio", I, 0, format!("&{t} / &IBig"), QI, |c| &c.$g1() / &c.ic(), |d| q2_zero(d));
+        entry!($v, "ratio", I, 0, format!("UBig / {t}"), QI, |c| c.uc() / c.$g1(), |d| Pre::new().must(d.a.is_zero(), L_DIV0, M_QDIV0).done());
+        entry!($v, "ratio", I, 0, format!("IBig / {t}"), QI, |c| c.ic() / c.$g1(), |d| Pre::new().must(d.a.is_zero(), L_DIV0, M_QDIV0).done());
+        // construction
+        const C: &str = "ratio: construction, parts, sign";
+        entry!($v, "ratio", C, 0, format!("{t}::from_parts"), Q1, |c| $T::from_parts(c.ia(), c.ub()), |d| Pre::new().must(d.b.is_zero(), L_DIV0, M_QDIV0).done());
+        entry!($v, "ratio", C, 0, format!("{t}::from_parts_signed"), U0.a(2).b(2), |c| $T::from_parts_signed(c.ia(), c.ib()), |d| Pre::new().must(d.b.is_zero(), L_DIV0, M_QDIV0).done());
+        entry!($v, "ratio", C, 0, format!("{t}::from_parts_const"), U0.a(2).b(1), |c| $T::from_parts_const(if c.a.neg { Sign::Negative } else { Sign::Positive }, low128(&c.a.mag), low128(&c.b.mag)), |d| Pre::new().must(low128(&d.b.mag) == 0, L_DIV0, M_QDIV0).done());
+        entry!($v, "ratio", C, 0, format!("{t}::into_parts/numerator/denominator"), Q1, |c| { let x = c.$g1(); (x.numerator().clone(), x.denominator().clone(), x.into_parts()) }, |_d| ret());
+        entry!($v, "ratio", C, 0, format!("{t}::is_zero/is_one"), Q1, |c| (c.$g1().is_zero(), c.$g1().is_one()), |_d| ret());
+        entry!($v, "ratio", C, 0, format!("-{t} / -&{t}"), Q1, |c| (-c.$g1(), -&c.$g1()), |_d| ret());
+        entry!($v, "ratio", C, 0, format!("{t}::abs/signum/sign"), Q1, |c| (Abs::abs(c.$g1()), c.$g1().signum(), c.$g1().sign()), |_d| ret());
+        entry!($v, "ratio", C, 0, format!("{t} * Sign"), Q1.n(NK::Sel), |c| c.$g1() * if c.n % 2 == 0 { Sign::Positive } else { Sign::Negative }, |_d| ret());
+        entry!($v, "ratio", C, 0, format!("{t} == / cmp / abs_cmp / abs_eq"), Q2, |c| { let (x, y) = (c.$g1(), c.$g2()); (x == y, x.cmp(&y), (x.abs_cmp(&y), x.abs_eq(&y))) }, |_d| ret());
+        entry!($v, "ratio", C, 0, format!("{t} clone/clone_from/default"), Q2, |c| { let mut x = c.$g1().clone(); x.clone_from(&c.$g2()); (x, $T::default()) }, |_d| ret());
+        entry!($v, "ratio", C, 0, format!("{t}::from(UBig) / from(IBig) / from(i64)"), U0.a(2).k(), |c| ($T::from(c.ua()), $T::from(c.ia()), $T::from(c.k128() as i64)), |_d| ret());
+        // rounding
+        const Rn: &str = "ratio: rounding to integers";
+        entry!($v, "ratio", Rn, 0, format!("{t}::trunc/floor/ceil/round"), Q1, |c| { let x = c.$g1(); (x.trunc(), x.floor(), (x.ceil(), x.round())) }, |_d| ret());
+        entry!($v, "ratio", Rn, 0, format!("{t}::fract/split_at_point"), Q1, |c| (c.$g1().fract(), c.$g1().split_at_point()), |_d| ret());
+        entry!($v, "ratio", Rn, 0, format!("{t}::to_int"), Q1, |c| c.$g1().to_int().value(), |_d| ret());
+        // conversions
+        const V: &str = "ratio: conversions";
+        entry!($v, "ratio", V, 0, format!("{t}::to_f32/to_f64"), Q1, |c| (c.$g1().to_f32(), c.$g1().to_f64()), |_d| ret());
+        entry!($v, "ratio", V, 0, format!("{t}::to_f32_fast/to_f64_fast"), Q1, |c| (c.$g1().to_f32_fast(), c.$g1().to_f64_fast()), |_d| ret());
+        entry!($v, "ratio", V, 0, format!("f32::try_from({t}) / f64::try_from({t})"), Q1, |c| (f32::try_from(c.$g1()), f64::try_from(c.$g1())), |_d| ret());
+        entry!($v, "ratio", V, 0, format!("{t}::try_from(f32)"), U0.n(NK::F32), |c| $T::try_from(f32::from_bits(c.n as u32)), |_d| ret());
+        entry!($v, "ratio", V, 0, format!("{t}::try_from(f64)"), U0.n(NK::F64), |c| $T::try_from(f64::from_bits(c.n)), |_d| ret());
+        entry!($v, "ratio", V, 0, format!("UBig::try_from({t}) / IBig::try_from({t})"), Q1, |c| (UBig::try_from(c.$g1()), IBig::try_from(c.$g1())), |_d| ret());
+        entry!($v, "ratio", V, 0, format!("u8/i64/u128::try_from({t})"), Q1, |c| (u8::try_from(c.$g1()), i64::try_from(c.$g1()), u128::try_from(c.$g1())), |_d| ret());
+        // to_float: the rustdoc names no panic; precision 0 cannot hold an inexact quotient
+        entry!($v, "ratio", V, 0, format!("{t}::to_float::<HalfAway,10>"), Q1.n(NK::Prec), |c| c.$g1().to_float::<mode::HalfAway, 10>(c.nu()), |d| Pre::new().unspec(d.n == 0, "unspecified: to_float with precision 0").done());
+        entry!($v, "ratio", V, 0, format!("{t}::to_float::<Zero,2>"), Q1.n(NK::Prec), |c| c.$g1().to_float::<mode::Zero, 2>(c.nu()), |d| Pre::new().unspec(d.n == 0, "unspecified: to_float with precision 0").done());
+        entry!($v, "ratio", V, 2, format!("{t}::try_from(FBig<Zero,2>)"), FX, |c| $T::try_from(c.fx::<mode::Zero, 2>()), |d| pre_digits_ret(&fv(&d.x, 2)));
+        entry!($v, "ratio", V, 10, format!("{t}::try_from(FBig<HalfAway,10>)"), FX, |c| $T::try_from(c.fx::<mode::HalfAway, 10>()), |d| pre_digits_ret(&fv(&d.x, 10)));
+        entry!($v, "ratio", V, 10, format!("FBig<HalfAway,10>::from({t})"), Q1, |c| FBig::<mode::HalfAway, 10>::from(c.$g1()), |_d| ret());
+        entry!($v, "ratio", V, 2, format!("FBig<Zero,2>::from({t})"), Q1, |c| FBig::<mode::Zero, 2>::from(c.$g1()), |_d| ret());
+        entry!($v, "ratio", V, 0, format!("{t}::log2_bounds/log2_est"), Q1, |c| { let x = c.$g1(); let (l, h) = x.log2_bounds(); (l, h, x.log2_est()) }, |d| Pre::new().unspec(d.a.is_zero(), "unspecified: log2_bounds(0) (trait and method rustdoc disagree)").done());
+        // text
+        const T: &str = "ratio: printing";
+        fmt_entries!($v, "ratio", T, 0, t, Q1, |c| c.$g1(), |_d| ret(), "{}" "{:?}" "{:#?}" "{:>50}" "{:+}" "{:.3}" "{:010}");
+        entry!($v, "ratio", T, 0, format!("{t}::to_string"), Q1, |c| c.$g1().to_string(), |_d| ret());
+        const P: &str = "ratio: parsing";
+        entry!($v, "ratio", P, 0, format!("{t}::from_str"), U0.s(SK::Ratio), |c| $T::from_str(&c.s), |_d| ret());
+        entry!($v, "ratio", P, 0, format!("{t}::from_str_radix"), U0.s(SK::Ratio).n(NK::Radix), |c| $T::from_str_radix(&c.s, c.n as u32), |_d| ret());
+        entry!($v, "ratio", P, 0, format!("{t}::from_str_with_radix_prefix"), U0.s(SK::Ratio), |c| $T::from_str_with_radix_prefix(&c.s), |_d| ret());
+    }};
+}
+
+/// conversions that must return Ok / Err (infinities included), but may need the digits
+fn pre_digits_ret(x: &FV) -> Exp {
+    Pre::new().unspec(x.extreme(), L_EXT).unspec(x.far(), L_FAR).heavy(x.far()).done()
+}
+
+fn ratio_ops(v: &mut Vec<Op>) {
+    ratio_type!(v, RBig, q1, q2);
+    ratio_type!(v, Relaxed, l1, l2);
+    const S: &str = "ratio: simplification (RBig)";
+    entry!(v, "ratio", S, 0, "RBig::simplest_in", Q2, |c| RBig::simplest_in(c.q1(), c.q2()), |_d| ret());
+    entry!(v, "ratio", S, 0, "RBig::is_simpler_than", Q2, |c| c.q1().is_simpler_than(&c.q2()), |_d| ret());
+    entry!(v, "ratio", S, 0, "RBig::simplest_from_f32", U0.n(NK::F32), |c| RBig::simplest_from_f32(f32::from_bits(c.n as u32)), |_d| ret());
+    entry!(v, "ratio", S, 0, "RBig::simplest_from_f64", U0.n(NK::F64), |c| RBig::simplest_from_f64(f64::from_bits(c.n)), |_d| ret());
+    entry!(v, "ratio", S, 2, "RBig::simplest_from_float(FBig<Zero,2>)", FX, |c| RBig::simplest_from_float(&c.fx::<mode::Zero, 2>()), |d| pre_digits_ret(&fv(&d.x, 2)));
+    entry!(v, "ratio", S, 10, "RBig::simplest_from_float(FBig<HalfAway,10>)", FX, |c| RBig::simplest_from_float(&c.fx::<mode::HalfAway, 10>()), |d| pre_digits_ret(&fv(&d.x, 10)));
+    // a zero limit: the code panics with the division-by-zero helper, the rustdoc does not mention it
+    const QL: Uses = U0.a(2).b(1).c(1);
+    entry!(v, "ratio", S, 0, "RBig::nearest", QL, |c| c.q1().nearest(&c.uc()), |d| Pre::new().unspec(d.c.is_zero(), "unspecified: denominator limit 0").done());
+    entry!(v, "ratio", S, 0, "RBig::next_up", QL, |c| c.q1().next_up(&c.uc()), |d| Pre::new().unspec(d.c.is_zero(), "unspecified: denominator limit 0").done());
+    entry!(v, "ratio", S, 0, "RBig::next_down", QL, |c| c.q1().next_down(&c.uc()), |d| Pre::new().unspec(d.c.is_zero(), "unspecified: denominator limit 0").done());
+    entry!(v, "ratio", S, 0, "RBig::relax / Relaxed::canonicalize / as_relaxed", Q1, |c| (c.q1().relax(), c.l1().canonicalize(), c.q1().as_relaxed().clone()), |_d| ret());
+    entry!(v, "ratio", S, 0, "RBig::is_int", Q1, |c| c.q1().is_int(), |_d| ret());
+    entry!(v, "ratio", S, 0, "RBig hash", Q1, |c| { use std::hash::{Hash, Hasher}; let mut h = std::collections::hash_map::DefaultHasher::new(); c.q1().hash(&mut h); h.finish() }, |_d| ret());
+    entry!(v, "ratio", S, 10, "RBig abs_cmp FBig / FBig abs_cmp Relaxed", Q1.x(), |c| (c.q1().abs_cmp(&c.fx::<mode::HalfAway, 10>()), c.fx::<mode::HalfAway, 10>().abs_cmp(&c.l1())), |d| { let x = fv(&d.x, 10); Pre::new().unspec(x.inf != 0, L_INFU).unspec(x.extreme(), L_EXT).unspec(x.far(), L_FAR).heavy(x.far()).done() });
+}
+
+// ------------------------------------------------------------------------------------------------
+// dashu-base (traits implemented for the primitive types, helpers)
+// ------------------------------------------------------------------------------------------------
+
+macro_rules! base_uint {
+    ($v:ident, $($t:ident)*) => {$(
+        {
+            let t = stringify!($t);
+            const U: Uses = U0.k().a(2);
+            // second operand: low bits of slot a
+            const G: &str = "base: gcd / division / roots on primitives";
+            entry!($v, "base", G, 0, format!("Gcd::gcd({t}, {t})"), U, |c| Gcd::gcd(c.k128() as $t, low128(&c.a.mag) as $t), |d| Pre::new().must(d.k128() as $t == 0 && low128(&d.a.mag) as $t == 0, L_GCD00, M_GCD00).done());
+            entry!($v, "base", G, 0, format!("ExtendedGcd::gcd_ext({t}, {t})"), U, |c| ExtendedGcd::gcd_ext(c.k128() as $t, low128(&c.a.mag) as $t), |d| Pre::new().must(d.k128() as $t == 0 && low128(&d.a.mag) as $t == 0, L_GCD00, M_GCD00).done());
+            entry!($v, "base", G, 0, format!("DivRem::div_rem({t}, {t})"), U, |c| DivRem::div_rem(c.k128() as $t, low128(&c.a.mag) as $t), |d| Pre::new().must(low128(&d.a.mag) as $t == 0, L_DIV0, "").done());
+            entry!($v, "base", G, 0, format!("DivEuclid/RemEuclid/DivRemEuclid ({t})"), U, |c| { let (x, y) = (c.k128() as $t, low128(&c.a.mag) as $t); (DivEuclid::div_euclid(x, y), RemEuclid::rem_euclid(x, y), DivRemEuclid::div_rem_euclid(x, y)) }, |d| Pre::new().must(low128(&d.a.mag) as $t == 0, L_DIV0, "").done());
+            entry!($v, "base", G, 0, format!("DivRemAssign::div_rem_assign({t})"), U, |c| { let mut x = c.k128() as $t; let r = DivRemAssign::div_rem_assign(&mut x, low128(&c.a.mag) as $t); (x, r) }, |d| Pre::new().must(low128(&d.a.mag) as $t == 0, L_DIV0, "").done());
+            const B: &str = "base: bits, logarithm estimates, sign on primitives";
+            entry!($v, "base", B, 0, format!("BitTest::bit/bit_len ({t})"), U0.k().n(NK::Pos), |c| { let x = c.k128() as $t; (BitTest::bit(&x, c.nu()), BitTest::bit_len(&x)) }, |_d| ret());
+            entry!($v, "base", B, 0, format!("PowerOfTwo::is_power_of_two ({t})"), U0.k(), |c| PowerOfTwo::is_power_of_two(&(c.k128() as $t)), |_d| ret());
+            // next_power_of_two of the primitive types overflows above 2^(BITS-1) (std panics / wraps)
+            entry!($v, "base", B, 0, format!("PowerOfTwo::next_power_of_two ({t})"), U0.k(), |c| PowerOfTwo::next_power_of_two(c.k128() as $t), |d| Pre::new().unspec((d.k128() as $t) > (<$t>::MAX >> 1) + 1, "unspecified: next_power_of_two does not fit the primitive").done());
+            entry!($v, "base", B, 0, format!("EstimatedLog2 ({t})"), U0.k(), |c| { let x = c.k128() as $t; let (l, h) = x.log2_bounds(); (l, h, x.log2_est()) }, |d| Pre::new().unspec(d.k128() as $t == 0, "unspecified: log2_bounds(0) (trait and method rustdoc disagree)").done());
+        }
+    )*};
+}
+
+macro_rules! base_roots {
+    ($v:ident, $($t:ident)*) => {$(
+        {
+            let t = stringify!($t);
+            const G: &str = "base: gcd / division / roots on primitives";
+            entry!($v, "base", G, 0, format!("SquareRoot/CubicRoot ({t})"), U0.k(), |c| { let x = c.k128() as $t; (SquareRoot::sqrt(&x), CubicRoot::cbrt(&x)) }, |_d| ret());
+            entry!($v, "base", G, 0, format!("SquareRootRem/CubicRootRem ({t})"), U0.k(), |c| { let x = c.k128() as $t; (SquareRootRem::sqrt_rem(&x), CubicRootRem::cbrt_rem(&x)) }, |_d| ret());
+        }
+    )*};
+}
+
+macro_rules! base_sint {
+    ($v:ident, $($t:ident)*) => {$(
+        {
+            let t = stringify!($t);
+            const U: Uses = U0.k().a(2);
+            const B: &str = "base: bits, logarithm estimates, sign on primitives";
+            // abs of MIN overflows the primitive (std: panic with overflow checks)
+            entry!($v, "base", B, 0, format!("Abs::abs ({t})"), U0.k(), |c| Abs::abs(c.k128() as $t), |d| Pre::new().unspec(d.k128() as $t == <$t>::MIN, "unspecified: |MIN| does not fit the signed primitive").done());
+            entry!($v, "base", B, 0, format!("UnsignedAbs::unsigned_abs ({t})"), U0.k(), |c| UnsignedAbs::unsigned_abs(c.k128() as $t), |_d| ret());
+            entry!($v, "base", B, 0, format!("Signed::sign/is_positive/is_negative ({t})"), U0.k(), |c| { let x = c.k128() as $t; (Signed::sign(&x), Signed::is_positive(&x), Signed::is_negative(&x)) }, |_d| ret());
+            entry!($v, "base", B, 0, format!("AbsOrd::abs_cmp / AbsEq::abs_eq ({t})"), U, |c| { let (x, y) = (c.k128() as $t, low128(&c.a.mag) as $t); (AbsOrd::abs_cmp(&x, &y), AbsEq::abs_eq(&x, &y)) }, |_d| ret());
+            entry!($v, "base", B, 0, format!("EstimatedLog2 ({t})"), U0.k(), |c| { let x = c.k128() as $t; let (l, h) = x.log2_bounds(); (l, h, x.log2_est()) }, |d| Pre::new().unspec(d.k128() as $t == 0, "unspecified: log2_bounds(0) (trait and method rustdoc disagree)").done());
+            entry!($v, "base", B, 0, format!("{t} * Sign"), U0.k().n(NK::Sel), |c| (c.k128() as $t) * if c.n % 2 == 0 { Sign::Positive } else { Sign::Negative }, |d| Pre::new().unspec(d.k128() as $t == <$t>::MIN, "unspecified: -MIN does not fit the signed primitive").done());
+        }
+    )*};
+}
+
+fn base_ops(v: &mut Vec<Op>) {
+    base_uint!(v, u8 u16 u32 u64 u128 usize);
+    base_sint!(v, i8 i16 i32 i64 i128 isize);
+    base_roots!(v, u8 u16 u32 u64 u128);
+    const F: &str = "base: primitive floats";
+    let nanf = |b: u64| f32::from_bits(b as u32).is_nan();
+    let _ = nanf;
+    entry!(v, "base", F, 0, "utils::next_up(f32)", U0.n(NK::F32), |c| dashu_base::utils::next_up(f32::from_bits(c.n as u32)), |d| { let f = f32::from_bits(d.n as u32); Pre::new().must(f.is_nan() || f.is_infinite(), L_NAN, "").done() });
+    entry!(v, "base", F, 0, "utils::next_down(f32)", U0.n(NK::F32), |c| dashu_base::utils::next_down(f32::from_bits(c.n as u32)), |d| { let f = f32::from_bits(d.n as u32); Pre::new().must(f.is_nan() || f.is_infinite(), L_NAN, "").done() });
+    entry!(v, "base", F, 0, "EstimatedLog2 (f32)", U0.n(NK::F32), |c| { let x = f32::from_bits(c.n as u32); let (l, h) = x.log2_bounds(); (l, h, x.log2_est()) }, |d| { let f = f32::from_bits(d.n as u32); Pre::new().unspec(f.is_nan() || f.is_infinite() || f == 0.0, "unspecified: log2_bounds of 0 / NaN / infinite float").done() });
+    entry!(v, "base", F, 0, "EstimatedLog2 (f64)", U0.n(NK::F64), |c| { let x = f64::from_bits(c.n); let (l, h) = x.log2_bounds(); (l, h, x.log2_est()) }, |d| { let f = f64::from_bits(d.n); Pre::new().unspec(f.is_nan() || f.is_infinite() || f == 0.0, "unspecified: log2_bounds of 0 / NaN / infinite float").done() });
+    entry!(v, "base", F, 0, "Inverse::inv (f32, f64)", U0.n(NK::F64), |c| (Inverse::inv(f32::from_bits(c.n as u32)), Inverse::inv(f64::from_bits(c.n)), Inverse::inv(&f64::from_bits(c.n))), |_d| ret());
+    entry!(v, "base", F, 0, "Abs / Signed (f32, f64)", U0.n(NK::F64), |c| { let (x, y) = (f32::from_bits(c.n as u32), f64::from_bits(c.n)); (Abs::abs(x), Abs::abs(y), (Signed::sign(&x), Signed::sign(&y))) }, |d| { let (x, y) = (f32::from_bits(d.n as u32), f64::from_bits(d.n)); Pre::new().unspec(x.is_nan() || y.is_nan(), "unspecified: sign of NaN").done() });
+    // documented: abs_cmp panics if either number is NaN
+    entry!(v, "base", F, 0, "AbsOrd::abs_cmp (f64)", U0.n(NK::F64).k(), |c| AbsOrd::abs_cmp(&f64::from_bits(c.n), &f64::from_bits(c.k128() as u64)), |d| Pre::new().must(f64::from_bits(d.n).is_nan() || f64::from_bits(d.k128() as u64).is_nan(), L_NAN, "").done());
+    entry!(v, "base", F, 0, "AbsOrd::abs_cmp (f32)", U0.n(NK::F32).k(), |c| AbsOrd::abs_cmp(&f32::from_bits(c.n as u32), &f32::from_bits(c.k128() as u32)), |d| Pre::new().must(f32::from_bits(d.n as u32).is_nan() || f32::from_bits(d.k128() as u32).is_nan(), L_NAN, "").done());
+    entry!(v, "base", F, 0, "AbsEq::abs_eq (f64)", U0.n(NK::F64).k(), |c| AbsEq::abs_eq(&f64::from_bits(c.n), &f64::from_bits(c.k128() as u64)), |_d| ret());
+    entry!(v, "base", F, 0, "FloatEncoding::decode (f32, f64)", U0.n(NK::F64), |c| (f32::from_bits(c.n as u32).decode(), f64::from_bits(c.n).decode()), |_d| ret());
+    entry!(v, "base", F, 0, "FloatEncoding::encode (f32)", U0.k().a(2), |c| f32::encode(c.k128() as i32, c.a.big().to_i64().unwrap_or(0) as i16), |_d| ret());
+    entry!(v, "base", F, 0, "FloatEncoding::encode (f64)", U0.k().a(2), |c| f64::encode(c.k128() as i64, c.a.big().to_i64().unwrap_or(0) as i16), |_d| ret());
+    const S: &str = "base: Sign, Approximation";
+    entry!(v, "base", S, 0, "Sign ops", U0.n(NK::Sel), |c| { let s = Sign::from(c.n % 2 == 1); let t = Sign::from(c.n % 4 >= 2); (-s, s * t, (s.cmp(&t), bool::from(s), { let mut u = s; u *= t; u })) }, |_d| ret());
+    entry!(v, "base", S, 0, "Sign * Ordering / Ordering * Sign", U0.n(NK::Sel), |c| { let s = Sign::from(c.n % 2 == 1); let o = [Ordering::Less, Ordering::Equal, Ordering::Greater][(c.n % 3) as usize]; (s * o, o * s) }, |_d| ret());
+    entry!(v, "base", S, 0, "Approximation methods", U0.k().n(NK::Sel), |c| { let a: Approximation<i128, Sign> = if c.n % 2 == 0 { Approximation::Exact(c.k128()) } else { Approximation::Inexact(c.k128(), Sign::Negative) }; (a.clone().value(), *a.value_ref(), (a.clone().error().map(D), a.clone().map(|v| v as u8).value(), a.and_then(|v| Approximation::<i128, Sign>::Exact(v)).value())) }, |_d| ret());
+    entry!(v, "base", S, 0, "Approximation::unwrap", U0.k().n(NK::Sel), |c| { let a: Approximation<i128, Sign> = if c.n % 2 == 0 { Approximation::Exact(c.k128()) } else { Approximation::Inexact(c.k128(), Sign::Negative) }; a.unwrap() }, |d| Pre::new().unspec(d.n % 2 == 1, "unspecified: Approximation::unwrap of an Inexact value").done());
+    entry!(v, "base", S, 0, "ParseError / ConversionError Display", U0.n(NK::Sel), |c| { use dashu_base::{ConversionError, ParseError}; let e = [ParseError::NoDigits, ParseError::InvalidDigit, ParseError::UnsupportedRadix, ParseError::InconsistentRadix][(c.n % 4) as usize]; (format!("{e}"), format!("{}", ConversionError::OutOfBounds), format!("{:?}", ConversionError::LossOfPrecision)) }, |_d| ret());
 }
 
 static CAT: OnceLock<Vec<Op>> = OnceLock::new();
@@ -2339,8 +2552,30 @@ fn judge_inner(c: &Case, ctx: &Ctx) -> Out {
     let small = is_small(c, op, &exp);
     out.label(if small { "size: small (hang rule applies)" } else { "size: not small" });
     let known_hang = !ctx.strict && exp.known.iter().any(|k| matches!(k.on, On::HangOrMem) && ctx.known.active(k.id));
-    let obs = observe(c, small, known_hang);
-    let what = || describe(c, op);
+    let what = describe(c, op);
+    // build with debug assertions + overflow checks (the harness profile)
+    let obs = observe(c, small, known_hang, false);
+    let debug_panicked = matches!(obs, Obs::Panic(_));
+    assess(&mut out, ctx, &exp, obs, &what, "checked build");
+    // ordinary release build: every call whose precondition table entry is not "must return",
+    // every call that panicked in the checked build, and a fixed quarter of the rest
+    let quarter = {
+        use std::hash::{Hash, Hasher};
+        let mut h = std::collections::hash_map::DefaultHasher::new();
+        c.hash(&mut h);
+        h.finish() % 4 == 0
+    };
+    if !matches!(out.verdict, Verdict::Violation(_)) && (exp.kind != Kind::Ret || debug_panicked || quarter) {
+        out.label("also run in the plain release build");
+        let obs = observe(c, small, known_hang, true);
+        assess(&mut out, ctx, &exp, obs, &what, "plain release build");
+    }
+    out
+}
+
+/// judge one observation against the expectation
+fn assess(out: &mut Out, ctx: &Ctx, exp: &Exp, obs: Obs, what: &str, build: &'static str) {
+    let plain = build != "checked build";
     // a failing observation: known finding if one of the entry's specs covers it, else violation
     let failing = |out: &mut Out, kind: u8, panic_msg: &str, detail: String| {
         for k in &exp.known {
@@ -2358,18 +2593,18 @@ fn judge_inner(c: &Case, ctx: &Ctx) -> Out {
     };
     match obs {
         Obs::Ret(v) => {
-            out.label("observed: returned");
+            out.label(if plain { "observed (plain build): returned" } else { "observed: returned" });
             if exp.kind == Kind::Pan {
-                failing(&mut out, 2, "", format!("{}: returned {} although a documented precondition is violated ({})", what(), v, exp.label));
+                failing(out, 2, "", format!("{what} [{build}]: returned {v} although a documented precondition is violated ({})", exp.label));
             }
         }
         Obs::Panic(m) => {
-            out.label("observed: panicked");
+            out.label(if plain { "observed (plain build): panicked" } else { "observed: panicked" });
             match exp.kind {
-                Kind::Ret => failing(&mut out, 0, &m, format!("{}: panicked although no documented precondition is violated: {}", what(), normalise(&m))),
+                Kind::Ret => failing(out, 0, &m, format!("{what} [{build}]: panicked although no documented precondition is violated: {}", normalise(&m))),
                 Kind::Pan => {
                     if !exp.msgs.is_empty() && !exp.msgs.iter().any(|t| m.contains(t)) {
-                        failing(&mut out, 0, &m, format!("{}: panicked, but not with the documented message {:?} ({}): {}", what(), exp.msgs, exp.label, normalise(&m)));
+                        failing(out, 0, &m, format!("{what} [{build}]: panicked, but not with the documented message {:?} ({}): {}", exp.msgs, exp.label, normalise(&m)));
                     }
                 }
                 Kind::Unspec => {}
@@ -2377,22 +2612,21 @@ fn judge_inner(c: &Case, ctx: &Ctx) -> Out {
         }
         Obs::Hang(s) => {
             out.label("observed: did not return");
-            failing(&mut out, 1, "", format!("{}: does not return ({}; expectation: {})", what(), s, exp.label));
+            failing(out, 1, "", format!("{what} [{build}]: does not return ({s}; expectation: {})", exp.label));
         }
         Obs::Mem(s) => {
             out.label("observed: exhausted memory / aborted");
-            failing(&mut out, 1, "", format!("{}: exhausts memory / aborts ({}; expectation: {})", what(), normalise(&s), exp.label));
+            failing(out, 1, "", format!("{what} [{build}]: exhausts memory / aborts ({}; expectation: {})", normalise(&s), exp.label));
         }
         Obs::KnownSlow(s) => {
             out.label("observed: did not return (known class, short limit)");
-            failing(&mut out, 1, "", format!("{}: does not return ({}; expectation: {})", what(), s, exp.label));
+            failing(out, 1, "", format!("{what} [{build}]: does not return ({s}; expectation: {})", exp.label));
         }
         Obs::Inconclusive(s) => {
             out.label("observed: inconclusive");
-            out.inconclusive(format!("{}: {}", what(), s));
+            out.inconclusive(format!("{what} [{build}]: {s}"));
         }
     }
-    out
 }
 
 // ================================================================================================
@@ -2701,6 +2935,7 @@ fn main() {
         "catalogue of public operations (macro tables over dashu-base/-int/-float/-ratio: every operator in its ownership / assign / primitive-operand forms, inherent methods, trait methods, Context methods, conversions, formatting, parsing) × edge values of each argument domain (0, ±1, 2^64-1, 2^64, 2^128, a 40-word value, ±infinity, precision 0 and 1, exponents ±1000 / ±2^40 / near isize limits, shift counts to 2^20, powers to 2^22 bits, root orders 0..usize::MAX, radix 0,1,2,36,37,u32::MAX, chunk_bits 0, empty / sign-only / non-ASCII / 10^4-byte strings); every call runs in a supervised worker process (4 GiB address space, 10 s + 30 s deadline); oracle = precondition table computed from the inputs (rustdoc '# Panics' + error.rs helpers): violated => must panic with the documented message, otherwise must return, 'unspecified' where the documentation is silent; parsers on arbitrary strings must return Ok/Err. Non-trivial: the table says 'must panic' or an edge value is involved; distinct by case digest.",
     );
     let _ = index();
+    let _ = plain_exe();
     let n_int = cat().iter().filter(|o| o.krate == "int").count();
     let n_float = cat().iter().filter(|o| o.krate == "float").count();
     let n_ratio = cat().iter().filter(|o| o.krate == "ratio").count();
@@ -2713,6 +2948,8 @@ fn main() {
 
     ck.sub("int_calls", (30_000, 750_000), || call_strategy(ops_where(|o| o.krate == "int")), judge);
     ck.sub("float_calls", (24_000, 600_000), || call_strategy(ops_where(|o| o.krate == "float")), judge);
+    ck.sub("ratio_calls", (8_000, 200_000), || call_strategy(ops_where(|o| o.krate == "ratio")), judge);
+    ck.sub("base_calls", (3_000, 75_000), || call_strategy(ops_where(|o| o.krate == "base")), judge);
 
     ck.assume("util-linux prlimit (RLIMIT_AS = 4 GiB per worker); /proc/<pid>/stat CPU accounting at 100 ticks/s; a confirmed hang = no answer within 10 s at >= 50 % CPU and none within 30 s in a fresh worker, on a small input");
     ck.assume("debug assertions and overflow checks are ON in the harness build: exponent / index arithmetic that would wrap silently in an ordinary release build is observed here as a panic");
